@@ -10,8 +10,23 @@ def _b(n=8):
     return lambda pt: pt.Bytes(bytes(range(1, n + 1)))
 
 
+# Operand flipping (C05's operand-type probes): while an entry is being built with FLIP["k"] set, the k-th literal operand created
+# through the catalogue's own I()/B() helpers is replaced by a literal of the other type.
+FLIP = {"k": None, "n": 0}
+
+
 def entries(pt):
-    I, B = pt.Int, pt.Bytes
+    def I(n):
+        FLIP["n"] += 1
+        if FLIP["k"] is not None and FLIP["n"] == FLIP["k"]:
+            return pt.Bytes("flipped operand")
+        return pt.Int(n)
+
+    def B(*a):
+        FLIP["n"] += 1
+        if FLIP["k"] is not None and FLIP["n"] == FLIP["k"]:
+            return pt.Int(7)
+        return pt.Bytes(*a)
     a0 = lambda: pt.Txn.application_args[0]  # noqa: E731
     acct = lambda: pt.Txn.sender()  # noqa: E731
     E = []
@@ -292,3 +307,22 @@ def wrap(pt, entry):
     if t == pt.TealType.bytes:
         return pt.Seq(pt.Pop(pt.Len(e)), pt.Int(1))
     return pt.Seq(pt.Pop(e), pt.Int(1))
+
+
+def count_literals(pt, entry):
+    """Number of literal operands the entry creates through the catalogue's I()/B() helpers (None when it cannot be built)."""
+    FLIP["k"], FLIP["n"] = None, 0
+    try:
+        entry[3](pt)
+    except Exception:
+        return None
+    return FLIP["n"]
+
+
+def wrap_flipped(pt, entry, k):
+    """wrap(entry) with its k-th literal operand (1-based) of the other type.  Raises whatever PyTeal raises."""
+    FLIP["k"], FLIP["n"] = k, 0
+    try:
+        return wrap(pt, entry)
+    finally:
+        FLIP["k"], FLIP["n"] = None, 0
